@@ -33,7 +33,7 @@ CLAIMS = {
    text='Theorems C11_view, C11_set_userinfo, C11_set_host, C11_set_port (each editor: no panic, the handle invariant is re-established for the authority with exactly that sub-component replaced, before/after untouched; all branches: replace, insert with delimiter, remove with delimiter, no-op) and C11_history: ANY finite history of calls through one handle with delimiter-valid arguments keeps the invariant, so the handle always views exactly the current authority. The model carries the `end` arithmetic of the code and is compared with the implementation after every call.',
    note=TB),
  'C12': dict(cat='proof', tech='Coq proof (induction over an arbitrary next/next_back script) + model/implementation correspondence with the /-split oracle',
-   text='Theorems C12_interleave / C12_interleave_at (for every non-empty path and EVERY finite script of next/next_back calls the iterator model never panics and yields segment k from the front, n-m-1 from the back, None after the cursors meet), C12_segments_are_the_split (forward iteration of any path free of \'?\' \'#\' = the \'/\'-split of the text), C12_join_split. Derived queries: C12_last (last() = the last piece of the split, no panic), C12_parent / C12_parent_or_empty (the text up to the last \'/\', "/" for "/x", the library\'s "/./" for "//x", None / "" when there is nothing to cut); first, file_name, directory and the counts are modelled (PathQ.v) and compared with the implementation and an independent split oracle.',
+   text='Theorems C12_interleave / C12_interleave_at (for every non-empty path and EVERY finite script of next/next_back calls the iterator model never panics and yields segment k from the front, n-m-1 from the back, None after the cursors meet), C12_segments_are_the_split (forward iteration of any path free of \'?\' \'#\' = the \'/\'-split of the text), C12_join_split. Derived queries: C12_last (last() = the last piece of the split, no panic), C12_parent / C12_parent_or_empty (the text up to the last \'/\', "/" for "/x", the library\'s "/./" for "//x", None / "" when there is nothing to cut); C12_directory (for EVERY byte string, the text up to and including the last \'/\'); first, file_name and the counts are modelled (PathQ.v) and compared with the implementation and an independent split oracle.',
    note=TB),
  'C20': dict(cat='proof', tech='Coq proof of range ordering/containment over the scanner model; allocation counting and pointer-range observation in the harness',
    text='Theorems C20_reference_ranges / C20_authority_ranges: the ranges returned by the decomposition of any well-formed reference/authority are well-formed, ordered, disjoint and inside '
@@ -79,8 +79,7 @@ CLAIMS = {
         'common prefix, shield shapes, authority on one side) the round trip is checked on generated pairs by model correspondence and the implementation\'s own ==: partial.',
    note=TB),
  'C16': dict(cat='proof', tech='Coq proof (soundness of the suffix loop in both directions; base is a prefix) + correspondence with a prefix oracle',
-   text='Theorems C16_suffix_only_for_prefixes, C16_none_only_for_non_prefixes (the suffix loop reports a suffix only for percent-decoded segment prefixes and "none" only for non-prefixes), '
-        'C16_base_is_prefix. Scheme/authority/absoluteness conditions, the remaining segments, query/fragment, and base() = text up to the last "/" of the path are compared with an oracle.',
+   text='Theorems C16_suffix_only_for_prefixes, C16_none_only_for_non_prefixes (the suffix loop reports a suffix only for percent-decoded segment prefixes and "none" only for non-prefixes), C16_suffix_exact (totality and exactness: when the first segments of the value match the prefix the loop returns, without panic, a path whose segments are exactly the remaining ones, up to "." shield segments), C16_base_is_prefix, C16_base_spec (for every well-formed reference base() = everything before the path ++ the path up to and including its last "/", by a proof of the backward scan of directory() for EVERY byte string). The scheme/authority/absoluteness conditions of the reference-level suffix and the carried query/fragment are compared with an oracle.',
    note=TB),
  'C17': dict(cat='proof', tech='accept language by the C01 theorems for the four types + thin Coq model; expansion observed by compiling one program per literal',
    text='What Coq decides is the accept language (C01 for uri, uri_reference, iri, iri_reference; thin model theorems C17_accepts_iff_runtime, C17_same_text). The expansion round trip '
